@@ -4,7 +4,7 @@
 //! inputs and reports progress; if no input completes within 10 seconds the input in progress is reported as
 //! non-terminating. Panics are caught per input.
 //!
-//! Also the error responses of the client-server API (`Error::from_http_response`: 6 bodies x 4 statuses x 7 Retry-After
+//! Also federation get_event responses with 0, 1, 2 and malformed `pdus`, and the error responses of the client-server API (`Error::from_http_response`: 6 bodies x 4 statuses x 7 Retry-After
 //! values, bodies truncated and mutated the same way).
 //!
 //! Space: (14 types x their seed texts + every generated event of the C18 family through the typed event enums) x (every prefix cut on a char boundary + each of 9 replacement tokens at every
@@ -138,6 +138,19 @@ pub fn run(_tier: &str) -> Report {
                     }
                 }
                 any
+            }));
+        }
+    }
+    // federation responses whose lists have a prescribed length: none, one, two elements (structure-level mutations), and
+    // the truncations / token mutations of each
+    let pdu = r#"{"type":"m.room.message","room_id":"!r:s","sender":"@a:s","origin_server_ts":1,"depth":1,"prev_events":[],"auth_events":[],"content":{"body":"b","msgtype":"m.text"},"hashes":{"sha256":"aGFzaA"},"signatures":{}}"#;
+    for pdus in [String::new(), pdu.to_owned(), format!("{pdu},{pdu}"), "1".to_owned(), "null".to_owned()] {
+        let body = format!(r#"{{"origin":"s.org","origin_server_ts":5,"pdus":[{pdus}]}}"#);
+        for v in variants(&body) {
+            all.push(("ruma_federation_api::event::get_event::v1::Response::try_from_http_response", v, |s| {
+                use ruma_common::api::IncomingResponse;
+                let resp = http::Response::builder().status(200).header(http::header::CONTENT_TYPE, "application/json").body(s.as_bytes().to_vec()).unwrap();
+                ruma_federation_api::event::get_event::v1::Response::try_from_http_response(resp).is_ok()
             }));
         }
     }
